@@ -107,6 +107,11 @@ def main():
             die('CacheStore.%s not found' % fn)
 
     shapes = {fn: ast.unparse(fns[fn]).split('\n') for fn in FUNCS}
+    # the entry-name function (which paths share a cache entry): mirrored by the `name` function of the
+    # key-indexed family in Model/Cache.lean, pinned by C18_entry_name_shape
+    if '_get_filename' not in fns:
+        die('CacheStore._get_filename not found')
+    shape_name = ast.unparse(fns['_get_filename']).split('\n')
 
     # --- _cache_is_valid: `return store_mtime <op> os.stat(filename).st_mtime`
     valid = None
@@ -242,6 +247,9 @@ def main():
         L.append('def shape%s : List String := %s' % (''.join(w.capitalize() for w in fn.strip('_').split('_')),
                                                       lean_list([lean_str(s) for s in shapes[fn]])))
         L.append('')
+    L.append('/-- normalised text of `CacheStore._get_filename` (the entry-name function) -/')
+    L.append('def shapeGetFilename : List String := %s' % lean_list([lean_str(x) for x in shape_name]))
+    L.append('')
     L.append('/-- `_cache_is_valid`: the comparison that lets `store` skip writing -/')
     L.append('def cacheIsValid (storeM srcM : Nat) : Bool := decide (%s)' % valid)
     L.append('')
